@@ -49,7 +49,7 @@ def plan(tier, seed):
         shards.append(("scanpairs", c, 4, tier))
     for c in range(4):
         shards.append(("scanpairs5", c, 4, tier))
-    shards.append(("threads",))
+    shards.append(("threads", 1 if tier == "quick" else 2))
     if tier == "quick":
         # a slice of the 2x3 pair space as well (every 64th first frame)
         for c in range(16):
@@ -638,7 +638,7 @@ def _run_threads(desc):
         def make():
             return [lambda: conv(A, hows[0]), lambda: conv(B, hows[1])]
         nexec = 0
-        for sw, res, err in pysched.explore(make, lambda fr: fr.f_code.co_filename == modfile, bound=1, max_exec=4000):
+        for sw, res, err in pysched.explore(make, lambda fr: fr.f_code.co_filename == modfile, bound=(desc[1] if len(desc) > 1 else 1), max_exec=4000 if len(desc) < 2 or desc[1] == 1 else 40000):
             nexec += 1
             case = {"kind": "threads", "mode": mode, "switch_at_points": list(sw)}
             for t, img in enumerate((A, B)):
